@@ -38,8 +38,8 @@ def run(ctx):
     if r["rc"] != 0:
         raise Undecided("row enumeration failed:\n" + r["out"][-2000:])
     rows = behaviours(r["out"])
-    if len(rows) != 1 or len(rows[0]) != 2000:
-        raise Undecided("TLC did not print the 2000 decision rows")
+    if len(rows) != 1 or len(rows[0]) != 2500:
+        raise Undecided("TLC did not print the 2500 decision rows")
     rows = rows[0]
     ctx.tlc_stats.append(dict(name="rows", module="Acme", cfg="4 secret states x 5 expiry positions x 5 SAN sets x 4 domain sets x 5 client outcomes",
                               generated=len(rows), distinct=len(rows), depth=1, wall_s=round(r["wall"], 1), violated=None))
